@@ -1697,3 +1697,56 @@ Proof.
   intros n Hn Hfr Hs HW Hwf Ha Hb. unfold n. rewrite !F_wt_eq_F_mapping by assumption.
   apply F_mapping_symmetric; auto. intros o Ho. now destruct (Hwf o Ho) as (_ & H & _).
 Qed.
+
+(* ---- w-tilde data vector when every object is a mapper (branches _data_vector_x1_mapper / _data_vector_multi_mapper) ---- *)
+Lemma all_mappers_no_func objs : forallb (@is_mapper ROps) objs = true -> existsb (@is_func ROps) objs = false.
+Proof.
+  induction objs as [|o t IH]; cbn; auto. intros H. apply andb_true_iff in H. destruct H as [H1 H2].
+  unfold is_func at 1. rewrite H1. cbn. auto.
+Qed.
+Lemma D_wt_mappers_only (c : @convolver ROps) m K objs (d s : list R) : forallb (@is_mapper ROps) objs = true -> objs <> [] ->
+  @D_wt ROps c m K objs d s =
+  concat (map (fun o => @dv_wtd ROps (@wt_data ROps (@native ROps m d) (@native ROps m s) K (unmasked m)) (enc_of o) (params o)) objs).
+Proof.
+  intros Hall Hne. unfold D_wt. rewrite (all_mappers_no_func objs Hall).
+  destruct (Nat.eqb (length (filter is_mapper objs)) 1) eqn:L; [|reflexivity].
+  assert (filter is_mapper objs = objs) as E.
+  { clear L Hne. induction objs as [|o t IH]; cbn in *; auto. apply andb_true_iff in Hall. destruct Hall as [H1 H2]. rewrite H1. now rewrite IH. }
+  rewrite E in L. apply Nat.eqb_eq in L. destruct objs as [|o [|o' t]]; cbn in L; try lia; try congruence.
+  cbn. now rewrite app_nil_r.
+Qed.
+Lemma concat_cell (wd : list R) : forall objs i la, (i < length objs)%nat -> (la < params (ob objs i))%nat ->
+  nth (off objs i + la) (concat (map (fun o => @dv_wtd ROps wd (enc_of o) (params o)) objs)) 0 =
+  nth la (@dv_wtd ROps wd (enc_of (ob objs i)) (params (ob objs i))) 0.
+Proof.
+  induction objs as [|o t IH]; intros i la Hi Hla; [cbn in Hi; lia|]. cbn [map concat]. destruct i as [|i].
+  - unfold off, ob in *. cbn [firstn nth] in *. cbn. rewrite app_nth1 by (rewrite dv_wtd_length; lia). reflexivity.
+  - rewrite off_cons. rewrite app_nth2 by (rewrite dv_wtd_length; lia). rewrite dv_wtd_length.
+    replace (params o + off t i + la - params o)%nat with (off t i + la)%nat by lia.
+    unfold ob in *. cbn [nth] in *. apply IH; auto. cbn in Hi. lia.
+Qed.
+(* InversionImagingWTilde.data_vector = InversionImagingMapping.data_vector for any ordered list of mappers,
+   given w_tilde_data = C^T N^-1 d *)
+Theorem D_wt_eq_D_mapping_mappers (c : @convolver ROps) m K objs (d s : list R) n a :
+  forallb (@is_mapper ROps) objs = true -> length d = n -> (0 < n)%nat -> frames_ok c n ->
+  length (unmasked m) = n ->
+  wd_is_adjoint c d s (@wt_data ROps (@native ROps m d) (@native ROps m s) K (unmasked m)) n ->
+  (forall o, In o objs -> wf_obj c n o) -> (a < tp objs)%nat ->
+  nth a (@D_wt ROps c m K objs d s) 0 = nth a (@D_mapping ROps c objs d s) 0.
+Proof.
+  intros Hall Hd Hn Hfr Hu Hwd Hwf Ha.
+  destruct (locate_exists objs a Ha) as (i & la & Hi & Hla & ->).
+  assert (Hne : objs <> []) by (intros ->; cbn in Hi; lia).
+  rewrite D_wt_mappers_only by assumption. rewrite concat_cell by assumption.
+  assert (Hsh : forall o, In o objs -> shape n (params o) (opmat c o)) by (intros o Ho; now destruct (Hwf o Ho) as (_ & H & _)).
+  rewrite (D_mapping_blocks c objs d s n) by auto.
+  assert (Hin : In (ob objs i) objs) by (unfold ob; now apply nth_In).
+  pose proof (Hwf _ Hin) as W.
+  assert (Hm : is_mapper (ob objs i) = true) by (rewrite forallb_forall in Hall; now apply Hall).
+  destruct (ob objs i) as [e M P r|] eqn:Eo; [|discriminate]. cbn [enc_of params] in *.
+  destruct W as (_ & _ & He & _).
+  rewrite (wt_data_vector_block c d s _ e P n la); auto.
+  - apply sumR_map_ext. intros k Hk. apply in_seq in Hk.
+    rewrite (mapper_block_is_Bm c n e M P r) by (auto; try lia; apply Hwf; rewrite <- Eo; exact Hin). reflexivity.
+  - unfold wt_data. now rewrite map_length.
+Qed.
